@@ -261,6 +261,9 @@ def l1(ctx):
                                         g = True
                         okc = okc and g
                 ig = crate.free_fn("is_ground")
+                if len(ig) != 1:
+                    # (moved into an impl block / another module: whatever non-closure function of the library bears the name)
+                    ig = [x for x in crate.by_name.get("is_ground", []) if x.kind != "Closure" and (x.file or "").startswith("src/")]
                 okg = False
                 if len(ig) == 1:
                     g_ = ig[0]
